@@ -24,14 +24,14 @@ Theorem live_decode_consistent :
 Proof. split; vm_compute; reflexivity. Qed.
 
 (* the unbounded theorems restated on the live tables *)
-Theorem live_realise_fixpoint : forall has_md pn se md i rgs as_cat d,
+Theorem live_realise_fixpoint : forall has_md pn se md loc rgs as_cat d,
   (se_type se < 8)%N ->
-  predict live has_md pn se md i rgs as_cat = ROk d -> realise (md_tzflag md) d = d.
+  predict live has_md pn se md loc rgs as_cat = ROk d -> realise (md_tzflag md) d = d.
 Proof. rewrite live_tables_are_pinned. exact realise_fixpoint. Qed.
 
-Theorem live_null_evidence_sound : forall R has_md pn se md i rgs d,
+Theorem live_null_evidence_sound : forall R has_md pn se md loc rgs d,
   (se_type se < 8)%N ->
-  base_dtype_gen R live has_md pn se md i rgs = ROk d ->
+  base_dtype_gen R live has_md pn se md loc rgs = ROk d ->
   np_int_or_bool d = true -> has_md && md_claims_gen (r_cat_md R) md = false ->
-  Forall (no_evidence_rg (r_absent_counts R) i) rgs.
+  Forall (no_evidence_rg (r_absent_counts R) loc) rgs.
 Proof. rewrite live_tables_are_pinned. exact null_evidence_sound. Qed.
